@@ -1011,6 +1011,7 @@ class SortValues(BaseSetIndexSortValues):
         "upsample": 1.0,
         "ignore_index": False,
         "shuffle_method": None,
+        "options": None,
     }
     _filter_passthrough = True
 
